@@ -4,9 +4,12 @@ import defs as D, random, re
 from checks.c16 import pe
 
 WORDS = ["a", "of", "the", "parser", "übergröße", "naïve", "日本語", "x" * 31, "y" * 47, "z" * 60, "co-op", "e.g.", "--flag", "key=value",
-         "path/to/some/file.txt", "tab\there", "(paren)", "q" * 14, "w" * 22, "I", "wörter"]
+         "path/to/some/file.txt", "tab\there", "(paren)", "q" * 14, "w" * 22, "I", "wörter",
+         # characters that occupy no column on a terminal are characters all the same: they count
+         "\x1b[1mbold\x1b[0m", "be\x07\x07ll", "u\x1fs\x1fv\x1f"]
 
 
+ENVVAR, ENVVAL = "BPAF_VERIF_C13", "uno dos\n\ntres cuatro\n\n    cinco"
 LATER = "zq"      # every token of a later paragraph of an *item* help text starts with this prefix
 WORDS2 = ["a", "of", "the", "parser", "x" * 31, "y" * 47, "z" * 60, "co-op", "--flag", "q" * 14, "w" * 22, "I", "key_value"]
 
@@ -71,6 +74,9 @@ def family(seed, n):
                 it["help"] = text(rnd, f"n{k}")
                 it["help_cuts"] = cuts(rnd, it["help"])
                 it["help_all_nested"] = bool(it["help_cuts"]) and rnd.random() < 0.3      # every fragment a Doc of its own
+                # the state of an item's variable is part of its help: a value with a blank line in it stays one line
+                if k % 4 == 0 and not it.get("env"):
+                    it["env"] = ENVVAR
                 if rnd.random() < 0.2:
                     it["longs"] = it["longs"] + []      # keep
             for p in lvl["tail"].get("items", []):
@@ -99,7 +105,8 @@ def run(v):
     trace = os.path.join(WORK, f"C13-{v.tier}-wrap.ndjson")
     tw = [w for w in (50, 97) if w in widths] or widths[len(widths) // 2:][:1]
     r = subprocess.run([hbin, "wrap", "--defs", dpath, "--out", trace, "--widths", ",".join(map(str, widths)),
-                        "--text-widths", ",".join(map(str, tw))], text=True, capture_output=True, timeout=7200)
+                        "--text-widths", ",".join(map(str, tw))], text=True, capture_output=True, timeout=7200,
+                       env=dict(os.environ, **{ENVVAR: ENVVAL}))
     if r.returncode != 0:
         raise ToolError("harness wrap failed: " + r.stderr[-2000:])
     recs = []
@@ -155,7 +162,7 @@ def run(v):
             lvl = [c for c in lvl["tail"]["cmds"] if c["names"][0] == pth][0]["level"]
         hn = [n for n in lvl["help_names"] if n.startswith("--")] or lvl["help_names"]
         argv = path + [hn[0], hn[0]]
-        env = dict(os.environ, BPAF_VERIF_DEF=json.dumps(dd), BPAF_VERIF_WIDTH=str(x["width"]))
+        env = dict(os.environ, BPAF_VERIF_DEF=json.dumps(dd), BPAF_VERIF_WIDTH=str(x["width"]), **{ENVVAR: ENVVAL})
         try:
             pr = subprocess.run(["app"] + argv, executable=app, env=env, capture_output=True, timeout=30)   # argv[0] = "app"
         except subprocess.TimeoutExpired:
